@@ -40,6 +40,9 @@ static std::string judge(const Case &cs, const Out &o) {
     if (cs.m == cs.n && (cs.ops & 16)) {
         double s = 0; for (int i = 0; i < cs.m; ++i) s += (1 + i % 4) * (3 - i % 5);
         for (int r = 0; r < k; ++r) if (o.ip[r] != s) return vf::KS() << "inner product on rank " << r << " = " << o.ip[r] << " want " << s;
+        std::complex<double> sc(0, 0);
+        for (int i = 0; i < cs.m; ++i) sc += std::complex<double>(1 + i % 4, 2 - i % 3) * std::conj(std::complex<double>(3 - i % 5, 1 + i % 2));
+        for (int r = 0; r < k; ++r) if (o.ipc[r] != sc) return vf::KS() << "complex inner product on rank " << r << " = " << o.ipc[r] << " want sum x_i conj(y_i) = " << sc;
     }
     if ((cs.ops & 8) && cs.square_diag && cs.rp.b == cs.cp.b) {   // the scaled estimate needs the diagonal to be local: same row and column partition
         double g = 0; for (int i = 0; i < cs.m; ++i) { double s = 0; for (int j = 0; j < cs.n; ++j) s += std::abs(cs.G(i, j)); s *= std::abs(1.0 / cs.G(i, i)); g = std::max(g, s); }
